@@ -401,6 +401,15 @@ def scan(repo=None):
                         any(isinstance(m, ast.Call) and isinstance(m.func, ast.Name) and m.func.id == "getattr"
                             and len(m.args) >= 2 and _const_str(m.args[1]) == attr and ast.unparse(m.args[0]) == "self"
                             for m in ast.walk(fn))
+                # the function's reads of ITS OWN `self.<attr>` (and `super().__set__(..)`, which stores / reports under it):
+                # shared accesses too when `self` is itself a nested item whose attribute another site rewrites
+                wlines = {w[0] for w in writes}
+                events["Sself"] = sorted({m.lineno for m in ast.walk(fn)
+                                          if ((isinstance(m, ast.Attribute) and isinstance(m.ctx, ast.Load) and m.attr == attr
+                                               and isinstance(m.value, ast.Name) and m.value.id == "self")
+                                              or (isinstance(m, ast.Call) and isinstance(m.func, ast.Attribute)
+                                                  and m.func.attr == "__set__" and ast.unparse(m.func.value) == "super()"))
+                                          and m.lineno not in wlines}) if fs.has_self and tgt_s != "self" else []
                 rows.append({"path": rel, "file": os.path.basename(rel), "func": qual, "attr": attr, "target": tgt_s,
                              "valueKind": "readModifyWrite" if lineno in rmw_lines else fs.value_kind(val),
                              "readBack": read_back or lineno in rmw_lines, "line": lineno,
